@@ -10,6 +10,7 @@ from harness.lib.core import TRUSTED_BASE, VERIF, Ctx, lean_lock, run_driver, sh
 from harness.rigs import filter as rig
 from harness.rigs import net as netrig
 
+MANIFEST_DISABLED = "being adapted to fix d336b0f (host NIC accepts unicast only for its own IP addresses)"
 MANIFEST = {
     "text": "Lean 4 proof of (1) element lemmas for every software layer: a disabled or absent interface receives and sends "
             "nothing; a router that is not ON ignores frames; a frame a router's list denies, or a firewall's first- or "
